@@ -75,6 +75,18 @@ def parseOp : List String → Option Op
   | ["getBucketPolicy", b] => do pure (.getBucketPolicy (← Bytes.ofHex b))
   | ["deleteBucketPolicy", b] => do pure (.deleteBucketPolicy (← Bytes.ofHex b))
   | ["putBucketAcl", b, acl] => do pure (.putBucketAcl (← Bytes.ofHex b) (← parseCanned acl))
+  | ["putBucketAclGrants", b, gs] => do
+    -- gs = "-" or comma-separated PERM:hexaccount
+    let items := if gs = "-" then [] else gs.splitOn ","
+    let grants ← items.mapM fun it =>
+      match it.splitOn ":" with
+      | [p, a] => do
+        let perm ← (match p with
+          | "FULL_CONTROL" => some Perm.fullControl | "READ" => some Perm.read | "READ_ACP" => some Perm.readAcp
+          | "WRITE" => some Perm.write | "WRITE_ACP" => some Perm.writeAcp | _ => none)
+        pure (perm, ← Bytes.ofHex a)
+      | _ => none
+    pure (.putBucketAclGrants (← Bytes.ofHex b) grants)
   | ["getBucketAcl", b] => do pure (.getBucketAcl (← Bytes.ofHex b))
   | ["putBucketTagging", b, t] => do pure (.putBucketTagging (← Bytes.ofHex b) (← parseKVs t))
   | ["getBucketTagging", b] => do pure (.getBucketTagging (← Bytes.ofHex b))
